@@ -81,6 +81,10 @@ func (g *gen) next(i int) string {
 	h := g.h
 	name := vh.Pick(h, fileNames)
 	var src string
+	if h.Rng.IntN(2500) == 0 {
+		h.Count("gen.stress")
+		return g.op("foo/v1/a.j5s", g.stress())
+	}
 	c := h.Rng.IntN(100)
 	switch {
 	case c < 14:
@@ -191,6 +195,50 @@ func (g *gen) repoWindow() string {
 	return strings.Join(w, "\n") + "\n"
 }
 
+// ------------------------------------------------------------------ stress: depth, length, width
+
+func (g *gen) stress() string {
+	h := g.h
+	size := 100 + h.Rng.IntN(300)
+	if h.Tier == "thorough" {
+		size = 500 + h.Rng.IntN(2500)
+	}
+	var b strings.Builder
+	switch h.Rng.IntN(5) {
+	case 0: // nested declarations
+		for i := 0; i < size; i++ {
+			fmt.Fprintf(&b, "object A%d {\n", i)
+		}
+		b.WriteString(strings.Repeat("}\n", size))
+	case 1: // nested inline objects
+		b.WriteString("object A {\n")
+		for i := 0; i < size; i++ {
+			fmt.Fprintf(&b, "field f%d object {\n", i)
+		}
+		b.WriteString(strings.Repeat("}\n", size+1))
+	case 2: // one long dotted path
+		b.WriteString("object A {\nfield f object {\n")
+		b.WriteString(strings.Repeat("object.properties.schema.object.", size/4))
+		b.WriteString("ref = a.B\n}\n}\n")
+	case 3: // many statements in one body
+		b.WriteString("enum E {\n")
+		for i := 0; i < size*4; i++ {
+			fmt.Fprintf(&b, "option A%d\n", i)
+		}
+		b.WriteString("}\n")
+	default: // a long array value and a long qualifier chain
+		b.WriteString("object A {\nanyMember = [")
+		for i := 0; i < size*4; i++ {
+			if i > 0 {
+				b.WriteString(", ")
+			}
+			fmt.Fprintf(&b, "\"m%d\"", i)
+		}
+		b.WriteString("]\nfield f array" + strings.Repeat(":array", size/10) + ":string\n}\n")
+	}
+	return b.String()
+}
+
 // ------------------------------------------------------------------ token-level noise
 
 func (g *gen) noise(s string) string {
@@ -214,4 +262,3 @@ func (g *gen) noise(s string) string {
 	return string(rs)
 }
 
-var _ = fmt.Sprintf
